@@ -9,8 +9,10 @@ writes and reads them (`navis/io/precomputed_io.py`), plus the unit part of the 
 * Encoders use `/ 256`, `% 256` (numpy `tobytes` / `struct.pack('<II')` on a little-endian host);
   decoders use positional weights over `take`/`drop` – they share no code with the encoders.
 * Two decoders per format: `decode…` is the *independent decoder of the published format* (exact
-  length, every count honoured); `navisRead…` follows the code that exists (`np.frombuffer(f.read(k))`
-  takes whatever is available and `reshape(-1, c)` only asks for a multiple of `c`).
+  length, every count honoured); `navisRead…` follows the code that exists: every counted block is read
+  with `_read_exactly` (a short read raises), bytes after the last announced block are ignored, and the
+  face block of a mesh is `np.frombuffer(f.read()).reshape(-1, 3)` (whatever is left must be whole triangles).
+  (Before the repair of DESIGN §6 #16 the reader used `np.frombuffer(f.read(k))`, which accepts short reads.)
 -/
 namespace Navis.Codec
 
@@ -160,25 +162,10 @@ def attrBytes (n : Nat) : List AttrSpec → Nat
 
 def skelLen (specs : List AttrSpec) (n e : Nat) : Nat := 8 + 12 * n + 8 * e + attrBytes n specs
 
-/-- navis' attribute loop: `np.frombuffer(f.read(comps*size*n), dtype).reshape(-1, comps)` assigned as
-column(s) of a table with `rows` rows (pandas refuses a column of another length). -/
-def navisAttrs (n rows : Nat) : List AttrSpec → List Nat → Option (List (List Nat))
-  | [], _ => some []
-  | sp :: sps, bs =>
-    match availWords sp.size (sp.comps * n) bs with
-    | none => none
-    | some (vs, r) =>
-      if sp.comps = 0 ∨ vs.length % sp.comps ≠ 0 ∨ vs.length / sp.comps ≠ rows then none else
-        match navisAttrs n rows sps r with
-        | none => none
-        | some vss => some (vs :: vss)
-
-/-- **The reader that exists** (`PrecomputedSkeletonReader.read_buffer`): short reads are accepted as
-long as what is available reshapes; trailing bytes are ignored.
-Limit: the read sizes `int(3 * 4 * num_nodes)` are computed by numpy in `uint32` and wrap for
-`num_nodes ≥ 2^32 / 12`; the model computes them in `Nat` (it is compared with the code only on files
-whose header counts are far below that). The `int32` cast of the parent column is not modelled either
-(row indices `< 2^31`). -/
+/-- **The reader that exists** (`PrecomputedSkeletonReader.read_buffer`, repaired): counts, then every block
+with `_read_exactly` (fails when fewer bytes are left than the header announces), attributes in the order
+of the `info` file; trailing bytes are ignored (e.g. a `radius` block the `info` file does not announce).
+Limit: the `int32` cast of the parent column is not modelled (row indices `< 2^31`). -/
 def navisReadSkel (specs : List AttrSpec) (bs : List Nat) : Option Skel :=
   match readWord 4 bs with
   | none => none
@@ -186,21 +173,21 @@ def navisReadSkel (specs : List AttrSpec) (bs : List Nat) : Option Skel :=
     match readWord 4 r1 with
     | none => none
     | some (e, r2) =>
-      match availWords 4 (3 * n) r2 with
+      match readWords 4 (3 * n) r2 with
       | none => none
       | some (vw, r3) =>
         match triples vw with
         | none => none
         | some vs =>
-          match availWords 4 (2 * e) r3 with
+          match readWords 4 (2 * e) r3 with
           | none => none
           | some (ew, r4) =>
             match pairs ew with
             | none => none
             | some es =>
-              match navisAttrs n vs.length specs r4 with
+              match readAttrs n specs r4 with
               | none => none
-              | some as => some ⟨vs, es, as⟩
+              | some (as, _) => some ⟨vs, es, as⟩
 
 /-! ### precomputed (legacy) mesh fragment -/
 
@@ -235,13 +222,13 @@ def decodeMesh (bs : List Nat) : Option Mesh :=
           | some vs, some fs => some ⟨vs, fs⟩
           | _, _ => none
 
-/-- `PrecomputedMeshReader.read_buffer`: `frombuffer(f.read(12 n)).reshape(-1,3)`, then
+/-- `PrecomputedMeshReader.read_buffer` (repaired): the vertex block is read with `_read_exactly`, then
 `frombuffer(f.read()).reshape(-1,3)`. -/
 def navisReadMesh (bs : List Nat) : Option Mesh :=
   match readWord 4 bs with
   | none => none
   | some (n, r1) =>
-    match availWords 4 (3 * n) r1 with
+    match readWords 4 (3 * n) r1 with
     | none => none
     | some (vw, r2) =>
       match triples vw with
@@ -319,8 +306,9 @@ def nrrdWriteUnits (m : V3) (u : String) : NrrdUnits := ⟨m, u⟩
 /-- `NrrdReader.read_buffer` + `convert_image`, voxel output: `units = [f"{m} {u}" …]` per axis. -/
 def nrrdReadVoxelUnits (h : NrrdUnits) : V3 × String := (h.dirs, h.unit)
 
-/-- … dotprops output with 2-D data: points are taken as they are and `units = "1 {u}"`. -/
-def nrrdReadDotpropsUnits (h : NrrdUnits) : V3 × String := ((1, 1, 1), h.unit)
+/-- … dotprops output with 2-D data (repaired, DESIGN §6 #18): points are taken as they are and the units
+are those of the header, `[f"{m} {u}" …]` (before the repair: `"1 {u}"`). -/
+def nrrdReadDotpropsUnits (h : NrrdUnits) : V3 × String := (h.dirs, h.unit)
 
 /-! ### layout description
 
@@ -359,6 +347,14 @@ def meshWriterDtypes : List (String × String) :=
 def meshReaderFields : List (String × String × List String × Nat) :=
   [("num_vertices", "uint32", ["4"], 0), ("vertices", "float32", ["3", "4", "num_vertices"], 3),
    ("faces", "uint32", [], 3)]
+
+/-- Which reads are exact (`_read_exactly`): all counted blocks of both readers and the attribute blocks. -/
+def skelReaderExact : List (String × Bool) :=
+  [("num_nodes", true), ("num_edges", true), ("nodes", true), ("edges", true)]
+def skelAttrReadExact : Bool := true
+def meshReaderExact : List (String × Bool) := [("num_vertices", true), ("vertices", true), ("faces", false)]
+/-- `writeEdges` maps ids to row indices first; the `uint32` cast comes last. -/
+def skelEdgesCastAfterMapping : Bool := true
 
 def infoTypes : List String := ["neuroglancer_legacy_mesh", "neuroglancer_skeletons"]
 /-- `radiusSpec` as the `info` file announces it. -/
